@@ -76,6 +76,7 @@ def run(ctx):
     except Exception as e:
         raise Violation("C14/generated-input-rejected", "DomainParser/ProblemParser", f"{type(e).__name__}: {e}")
     pool = []  # [state, abstract, route]
+    parsers = {}  # kept TrajectoryParser objects
     values = [interp.init_state(W.P)]
     for _ in range(1 + ops.draw(2)):
         values.append(random_state(ops, W))
@@ -151,7 +152,22 @@ def run(ctx):
             alt = ops.chance(1, 3)
             try:
                 ast = L().PDDLTokenizer(pddl_str=src[0].serialize()).parse()
-                tp = L().TrajectoryParser(d_alt if alt else d, (p_alt if alt else p) if with_objects else None)
+                # the run keeps one parser object per configuration (a reader is normally kept for many states)
+                key = (alt, with_objects)
+                tp = parsers.get(key)
+                if tp is None:
+                    tp = parsers[key] = L().TrajectoryParser(d_alt if alt else d,
+                                                             (p_alt if alt else p) if with_objects else None)
+                if ops.chance(1, 4):
+                    # fault: a reading that fails half-way (legal components, then one the domain does not know); the
+                    # caller catches the error and goes on using the parser
+                    other_ast = L().PDDLTokenizer(pddl_str=ops.pick(pool)[0].serialize()).parse()
+                    bad = list(other_ast[1:]) + [[["no-such-predicate", "o1"], ["p0"], ["=", ["no-such-function"], "1"]][ops.draw(3)]]
+                    try:
+                        tp.parse_state(bad)
+                        ctx.probes["malformed_state_accepted"] += 1
+                    except Exception:
+                        ctx.faults["state_reading_aborted"] += 1
                 st = tp.parse_state(ast[1:])
             except Exception as e:
                 raise Violation("C14/serialization-not-readable-by-library", "TrajectoryParser.parse_state",
